@@ -1321,4 +1321,225 @@ example : ∃ (x y : Params ℚ), x.family = y.family ∧ x.family = .hilos ∧
     defineRaw? ⟨id, id, id, 3⟩ x = defineRaw? ⟨id, id, id, 3⟩ y ∧ (defineRaw? ⟨id, id, id, 3⟩ x).isSome = true :=
   ⟨.hilos ⟨1, 3, 2, 5, 3, 7, 1/2, 0, 1⟩, .hilos ⟨1, 3, 2, 5, 3, 7, 1/2, 0, 1⟩, by decide +kernel⟩
 
+/-! ### statement audit: every hypothesis of the theorems below discharged on a concrete, tilted cell with a non-zero origin
+(`K = ℚ`; the theorems that need `Trig.Spec` are instantiated over `ℝ` in the next section) -/
+
+section audit_examples
+
+/-- tilted LAMMPS-normal cell, non-zero origin. -/
+private def qB : Box ℚ := ⟨⟨⟨2, 0, 0⟩, ⟨1, 3, 0⟩, ⟨1/2, 1, 4⟩⟩, ⟨1, 2, 3⟩⟩
+/-- cell with rational lengths 5, 5, 7 (cosines 18/35, 2/7, 3/5). -/
+private def qP : Box ℚ := ⟨⟨⟨5, 0, 0⟩, ⟨3, 4, 0⟩, ⟨2, 3, 6⟩⟩, ⟨1, 2, 3⟩⟩
+private def qThr : ℚ := 1/1000000000
+
+example : qB.isLammpsNorm = true ∧ lengths? qB = some ⟨2, 3, 4, 1, 1/2, 1⟩ ∧ qB.origin = ⟨1, 2, 3⟩ :=
+  lengths_readback ⟨2, 3, 4, 1, 1/2, 1⟩ ⟨1, 2, 3⟩ qB (by decide +kernel)
+example : qB.isLammpsNorm = true ∧ hilos? qB = some ⟨1, 3, 2, 5, 3, 7, 1, 1/2, 1⟩ :=
+  hilos_readback ⟨1, 3, 2, 5, 3, 7, 1, 1/2, 1⟩ qB (by decide +kernel)
+example : ∃ p, lengths? qB = some p ∧ setLengths? qThr p qB.origin = some qB :=
+  lengths_roundtrip_clean qThr qB (by show cleanVects _ _ = _; decide +kernel) (by decide +kernel)
+example : ∃ p, hilos? qB = some p ∧ setHiLos? qThr p = some qB :=
+  hilos_roundtrip_clean qThr qB (by show cleanVects _ _ = _; decide +kernel) (by decide +kernel)
+example : setAbc? qThr 5 5 7 (18/35) (2/7) (3/5) 4 6 ⟨1, 2, 3⟩ = some qP :=
+  abc_rebuild_normal_clean qThr qP (by show cleanVects _ _ = _; decide +kernel) (by decide +kernel) 5 5 7 (18/35) (2/7) (3/5)
+    (by norm_num) (by norm_num) (by norm_num) (by decide +kernel) (by decide +kernel) (by decide +kernel)
+    (by decide +kernel) (by decide +kernel) (by decide +kernel)
+example : abcLySq (5 : ℚ) (3/5) = 4 * 4 ∧ abcLzSq (5 : ℚ) 7 (18/35) (2/7) (3/5) 4 = 6 * 6 :=
+  abc_roots_of_normal qP (by decide +kernel) 5 5 7 (18/35) (2/7) (3/5) (by norm_num)
+    (by decide +kernel) (by decide +kernel) (by decide +kernel) (by decide +kernel) (by decide +kernel) (by decide +kernel)
+example : 0 < abcLySq (5 : ℚ) (3/5) ∧ ∀ ly : ℚ, 0 < ly → ly * ly = abcLySq 5 (3/5) → 0 < abcLzSq 5 7 (18/35) (2/7) (3/5) ly :=
+  abc_radicands_pos qP (by decide +kernel) 5 5 7 (18/35) (2/7) (3/5) (by norm_num) (by norm_num)
+    (by decide +kernel) (by decide +kernel) (by decide +kernel) (by decide +kernel) (by decide +kernel) (by decide +kernel)
+    (by norm_num)
+/-- a rotation by the 3-4-5 angle about `z`: a general cell keeps its Gram matrix. -/
+example : gram (qB.vects.mul ⟨⟨3/5, -4/5, 0⟩, ⟨4/5, 3/5, 0⟩, ⟨0, 0, 1⟩⟩) = gram qB.vects :=
+  rotation_preserves_gram qB.vects ⟨⟨3/5, -4/5, 0⟩, ⟨4/5, 3/5, 0⟩, ⟨0, 0, 1⟩⟩ (by decide +kernel)
+example : qB.recip = (⟨qB.vects, ⟨7, 8, 9⟩⟩ : Box ℚ).recip :=
+  recip_depends_on_vects_only qB ⟨qB.vects, ⟨7, 8, 9⟩⟩ rfl
+example : qB.vects = (⟨qB.vects, ⟨7, 8, 9⟩⟩ : Box ℚ).vects :=
+  normal_unique_of_gram qB ⟨qB.vects, ⟨7, 8, 9⟩⟩ (by decide +kernel) (by decide +kernel) rfl
+example : 0 < V3.normSq (V3.cross qB.vects.r1 qB.vects.r2) ∧ 0 < V3.normSq (V3.cross qB.vects.r0 qB.vects.r2) ∧
+    0 < V3.normSq (V3.cross qB.vects.r0 qB.vects.r1) := cross_pos_of_det qB.vects (by decide +kernel)
+/-- the clean-up removes the tiny tilt `xy` and the cell stays LAMMPS-normal. -/
+example : (cleanBox qThr ⟨⟨⟨2, 0, 0⟩, ⟨1/1000000000000, 3, 0⟩, ⟨1/2, 1, 4⟩⟩, ⟨1, 2, 3⟩⟩).isLammpsNorm = true :=
+  clean_normal_of_det qThr ⟨⟨⟨2, 0, 0⟩, ⟨1/1000000000000, 3, 0⟩, ⟨1/2, 1, 4⟩⟩, ⟨1, 2, 3⟩⟩ (by decide +kernel) (by decide +kernel)
+example : (cleanBox qThr ⟨⟨⟨2, 0, 0⟩, ⟨1/1000000000000, 3, 0⟩, ⟨1/2, 1, 4⟩⟩, ⟨1, 2, 3⟩⟩ : Box ℚ).vects.r1.x = 0 := by decide +kernel
+/-- the object after a history that fills, drops and refills the cache. -/
+example : (Box.recip (⟨⟨⟨2, 0, 0⟩, ⟨1, 3, 0⟩, ⟨0, 1, 5⟩⟩, ⟨0, 1, 0⟩⟩ : Box ℚ)).mul
+    ((CBox.fresh : CBox ℚ).after qThr
+      [.set (.lengths ⟨2, 3, 4, 1/2, 0, 1⟩ ⟨1, 2, 3⟩), .read .recip, .set (.attrVects ⟨⟨2, 0, 0⟩, ⟨1, 3, 0⟩, ⟨0, 1, 5⟩⟩),
+       .read (.c2r ⟨1, 1, 1⟩), .set (.attrOrigin ⟨0, 1, 0⟩)]).box.vects.transpose = M3.one :=
+  obj_recip_dual qThr _ _ (by decide +kernel)
+example : ((insideAll qB ⟨1, 2, 3, 4, 5, 6⟩ [⟨9, 9, 9⟩, ⟨2, 3, 4⟩] true).length = 2) ∧
+    ((insideAll qB ⟨1, 2, 3, 4, 5, 6⟩ [⟨9, 9, 9⟩, ⟨2, 3, 4⟩] true)[1]? = some true ↔ RelIn (qB.cartToRel ⟨2, 3, 4⟩)) ∧
+    ((insideAll qB ⟨1, 2, 3, 4, 5, 6⟩ [⟨9, 9, 9⟩, ⟨2, 3, 4⟩] false)[1]? = some true ↔ RelInStrict (qB.cartToRel ⟨2, 3, 4⟩)) ∧
+    (outsideAll qB ⟨1, 2, 3, 4, 5, 6⟩ [⟨9, 9, 9⟩, ⟨2, 3, 4⟩] true)[1]? =
+      ((insideAll qB ⟨1, 2, 3, 4, 5, 6⟩ [⟨9, 9, 9⟩, ⟨2, 3, 4⟩] false)[1]?).map (!·) :=
+  insideAll_iff_rel qB (by decide +kernel) ⟨1, 2, 3, 4, 5, 6⟩ ⟨by norm_num, by norm_num, by norm_num, by norm_num, by norm_num, by norm_num⟩
+    [⟨9, 9, 9⟩, ⟨2, 3, 4⟩] 1 ⟨2, 3, 4⟩ rfl
+example : (insideAll qB ⟨1, 2, 3, 4, 5, 6⟩ [⟨9, 9, 9⟩, ⟨2, 3, 4⟩] true) = [false, true] := by decide +kernel
+example : -1 < angleCos (⟨3, 4, 0⟩ : V3 ℚ) ⟨2, 3, 6⟩ 5 7 ∧ angleCos (⟨3, 4, 0⟩ : V3 ℚ) ⟨2, 3, 6⟩ 5 7 < 1 :=
+  angleCos_strict ⟨3, 4, 0⟩ ⟨2, 3, 6⟩ 5 7 (by norm_num) (by norm_num) (by decide +kernel) (by decide +kernel) (by decide +kernel)
+example : angleCos (⟨3, 4, 0⟩ : V3 ℚ) ⟨2, 3, 6⟩ 5 7 * angleCos (⟨3, 4, 0⟩ : V3 ℚ) ⟨2, 3, 6⟩ 5 7 ≤ 1 :=
+  angleCos_sq_le_one ⟨3, 4, 0⟩ ⟨2, 3, 6⟩ 5 7 (by norm_num) (by norm_num) (by decide +kernel) (by decide +kernel)
+example : angleCos (⟨3, 4, 0⟩ : V3 ℚ) ⟨2, 3, 6⟩ 5 7 = 18/35 := by decide +kernel
+/-- a negative scale factor (the lengths take `|s|`). -/
+example : (|(-2 : ℚ)| * 5) * (|(-2 : ℚ)| * 5) = V3.normSq (scaleV (-2) (⟨3, 4, 0⟩ : V3 ℚ)) ∧
+    (|(-2 : ℚ)| * 7) * (|(-2 : ℚ)| * 7) = V3.normSq (scaleV (-2) (⟨2, 3, 6⟩ : V3 ℚ)) ∧ 0 < |(-2 : ℚ)| * 5 ∧ 0 < |(-2 : ℚ)| * 7 ∧
+    (18/35 : ℚ) * ((|(-2 : ℚ)| * 5) * (|(-2 : ℚ)| * 7)) = V3.dot (scaleV (-2) (⟨3, 4, 0⟩ : V3 ℚ)) (scaleV (-2) ⟨2, 3, 6⟩) :=
+  scale_angle_cos (-2) (by norm_num) ⟨3, 4, 0⟩ ⟨2, 3, 6⟩ 5 7 (18/35) (by decide +kernel) (by decide +kernel) (by norm_num) (by norm_num)
+    (by decide +kernel)
+example : (scaleBox (-2) qB).cartToRel (scaleV (-2) ⟨2, 3, 4⟩) = qB.cartToRel ⟨2, 3, 4⟩ :=
+  scale_cartToRel (-2) (by norm_num) qB (by decide +kernel) ⟨2, 3, 4⟩
+example : (scaleBox (-2) qB).recip = scaleM (-2 : ℚ)⁻¹ qB.recip := scale_recip (-2) (by norm_num) qB (by decide +kernel)
+example : (scaleBox (3/2) qB).isLammpsNorm = qB.isLammpsNorm := scale_isLammpsNorm (3/2) (by norm_num) qB
+/-- shapes: a stack of 4 x 2 points is accepted, a trailing dimension 2 is a ValueError. -/
+example := gen_shapes_eq_model [4, 2, 3] 3 rfl
+example := gen_shapes_eq_model [5, 2] 2 rfl
+example : convShape [4, 2, 3] = .ok [4, 2, 3] ∧ convShape [5, 2] = .errValue ∧ insideShape [4, 2, 3] = .ok [4, 2] := by decide
+example := src_lammps_getters qB (by decide +kernel)
+example : Generated.BoxSource.cleanupEntry qThr 4 (1/1000000000000) = cleanEntry qThr 4 (1/1000000000000) :=
+  gen_cleanupEntry_eq_model qThr 4 (1/1000000000000) (by norm_num)
+example : cleanEntry qThr 4 (1/1000000000000) = 0 ∧ cleanEntry qThr 4 (1/2) = 1/2 := by decide +kernel
+/-- keyword dispatch: soundness and completeness on keyword sets in a non-signature order. -/
+example := set_dispatch_sound ["origin", "lz", "ly", "lx", "yz"] .lengths (by decide) (by decide)
+example : setOutcome ["gamma", "c", "b", "a"] = .ok .abc :=
+  set_dispatch_complete ["gamma", "c", "b", "a"] .abc (by decide) (by decide) (by decide)
+/-- a cell-defining call forgets the previous cell (here: two different previous cells), a refused one changes nothing. -/
+example : (SetOp.lengths ⟨2, 3, 4, 1, 1/2, 1⟩ ⟨1, 2, 3⟩ : SetOp ℚ).apply? qThr qB = (SetOp.lengths ⟨2, 3, 4, 1, 1/2, 1⟩ ⟨1, 2, 3⟩).apply? qThr qP :=
+  redefine_forgets_previous_cell qThr _ rfl qB qP
+example := obj_redefine_eq_fresh qThr (SetOp.hilos ⟨1, 3, 2, 5, 3, 7, 1, 1/2, 1⟩ : SetOp ℚ) rfl ⟨qP, some qP.recip⟩
+example : ((⟨qP, some qP.recip⟩ : CBox ℚ).set qThr (.lengths ⟨2, -3, 4, 1, 1/2, 1⟩ ⟨1, 2, 3⟩)).1 = ⟨qP, some qP.recip⟩ :=
+  obj_rejected_unchanged qThr ⟨qP, some qP.recip⟩ _ (by decide +kernel)
+
+end audit_examples
+
+/-! ### statement audit: the theorems that assume `Trig.Spec`, instantiated with the real functions (`realTrig_spec`) on concrete
+real cells — a tilted LAMMPS-normal cell, the same cell turned, `Box.orthorhombic(2, 3, 4)`, and a cell with `gamma = 60` -/
+
+section audit_real
+
+/-- a cell is as the setter leaves it when every entry is `0` or larger than `thr` times a bound on the largest entry. -/
+theorem isClean_of_bound {K : Type} [Field K] [LinearOrder K] [IsStrictOrderedRing K] (thr c : K) (hthr : 0 ≤ thr) (b : Box K)
+    (hM : maxAbs b.vects ≤ c)
+    (h : ∀ x ∈ [b.vects.r0.x, b.vects.r0.y, b.vects.r0.z, b.vects.r1.x, b.vects.r1.y, b.vects.r1.z,
+      b.vects.r2.x, b.vects.r2.y, b.vects.r2.z], x = 0 ∨ thr * c < |x|) : IsClean thr b := by
+  have key : ∀ x, (x = 0 ∨ thr * c < |x|) → cleanEntry thr (maxAbs b.vects) x = x := by
+    intro x hx
+    rw [cleanEntry_eq]
+    rcases hx with rfl | hx
+    · simp
+    · have : thr * maxAbs b.vects ≤ thr * c := mul_le_mul_of_nonneg_left hM hthr
+      rw [if_neg (by linarith)]
+  simp only [List.mem_cons, List.not_mem_nil, or_false, forall_eq_or_imp, forall_eq] at h
+  obtain ⟨h1, h2, h3, h4, h5, h6, h7, h8, h9⟩ := h
+  show cleanVects thr b.vects = b.vects
+  simp only [cleanVects, cleanV, key _ h1, key _ h2, key _ h3, key _ h4, key _ h5, key _ h6, key _ h7, key _ h8, key _ h9]
+
+/-- tilted LAMMPS-normal real cell, non-zero origin; threshold `1e-9`. -/
+private noncomputable def rB : Box ℝ := ⟨⟨⟨2, 0, 0⟩, ⟨1, 3, 0⟩, ⟨1, 1, 4⟩⟩, ⟨1, 2, 3⟩⟩
+/-- the same cell turned (axes y, z reversed): right-handed, not LAMMPS-normal. -/
+private noncomputable def rT : Box ℝ := ⟨⟨⟨2, 0, 0⟩, ⟨1, -3, 0⟩, ⟨1, -1, -4⟩⟩, ⟨1, 2, 3⟩⟩
+private noncomputable def rThr : ℝ := 1/1000000000
+
+private theorem rB_clean : IsClean rThr rB := by
+  refine isClean_of_bound rThr 4 (by norm_num [rThr]) rB ?_ ?_
+  · rw [maxAbs_le_iff]; norm_num [rB]
+  · simp only [List.mem_cons, List.not_mem_nil, or_false, forall_eq_or_imp, forall_eq]; norm_num [rB, rThr]
+private theorem rT_clean : IsClean rThr rT := by
+  refine isClean_of_bound rThr 4 (by norm_num [rThr]) rT ?_ ?_
+  · rw [maxAbs_le_iff]; norm_num [rT]
+  · simp only [List.mem_cons, List.not_mem_nil, or_false, forall_eq_or_imp, forall_eq]; norm_num [rT, rThr]
+private theorem rB_normal : rB.isLammpsNorm = true := by rw [isLammpsNorm_iff]; norm_num [rB]
+private theorem rT_not_normal : rT.isLammpsNorm = false := by
+  rw [Bool.eq_false_iff, Ne, isLammpsNorm_iff]; norm_num [rT]
+private theorem rB_det : rB.vects.det = 24 := by norm_num [rB, M3.det, V3.dot, V3.cross]
+private theorem rT_det : rT.vects.det = 24 := by norm_num [rT, M3.det, V3.dot, V3.cross]
+
+example (Y : Family) : ∃ q, readAs? realTrig Y rB = some q ∧ q.family = Y ∧ define? realTrig rThr q = some rB :=
+  read_rebuild_same realTrig_spec rThr Y rB rB_clean rB_normal
+example : ∃ q, readAs? realTrig .abc rB = some q ∧ q.family = .abc ∧ define? realTrig rThr q = some rB :=
+  read_abc_rebuild_normal realTrig_spec rThr rB rB_clean rB_normal
+
+private theorem rB_raw : defineRaw? realTrig (.lengths ⟨2, 3, 4, 1, 1, 1⟩ ⟨1, 2, 3⟩) = some rB := by
+  simp [defineRaw?, ofLengthsP?, Box.ofLengths?, rB]
+private theorem rB_defined : define? realTrig rThr (.lengths ⟨2, 3, 4, 1, 1, 1⟩ ⟨1, 2, 3⟩) = some rB := by
+  rw [define_eq_clean_raw, rB_raw, Option.map_some, cleanBox, show cleanVects rThr rB.vects = rB.vects from rB_clean]
+private theorem rT_defined : define? realTrig rThr (.vectors ⟨2, 0, 0⟩ ⟨1, -3, 0⟩ ⟨1, -1, -4⟩ ⟨1, 2, 3⟩) = some rT := by
+  rw [define_eq_clean_raw]
+  show some (cleanBox rThr rT) = some rT
+  rw [cleanBox, show cleanVects rThr rT.vects = rT.vects from rT_clean]
+
+/-- define through LAMMPS lengths and tilts, read back and rebuild through each of the four parameter sets. -/
+example (Y : Family) : ∃ q, readAs? realTrig Y rB = some q ∧ q.family = Y ∧ define? realTrig rThr q = some rB :=
+  real_rebuild_any_pair rThr (by norm_num [rThr]) _ Y rB rB_defined (by rw [rB_det]; norm_num) (Or.inl (by simp [Params.family]))
+example (Y Z : Family) := rebuild_any_pair_fixpoint realTrig_spec rThr (by norm_num [rThr]) _ Y Z rB rB_defined
+  (by rw [rB_det]; norm_num) (Or.inl (by simp [Params.family]))
+/-- the object with a filled cache. -/
+example (Y : Family) := obj_rebuild_any_pair realTrig_spec rThr ⟨rB, some rB.recip⟩
+  (fun r h => ⟨by show rB.vects.det ≠ 0; rw [rB_det]; norm_num, (Option.some.inj h).symm⟩) Y rB_clean rB_normal
+/-- the turned cell: vectors give it back, the LAMMPS getters refuse, lengths and angles give a rotated copy. -/
+example := rebuild_turned_cell realTrig_spec rThr rT rT_clean (by rw [rT_det]; norm_num) rT_not_normal
+example : rT.isLammpsNorm = true → False := by rw [rT_not_normal]; simp
+example : IsClean rThr rT := defined_isClean (T := realTrig) rThr (by norm_num [rThr]) _ rT rT_defined
+example : rB.isLammpsNorm = true :=
+  defined_normal_of_det (T := realTrig) rThr _ (by simp [Params.family]) rB rB_defined (by rw [rB_det]; norm_num)
+example : readAs? realTrig .lengths rB = some (.lengths ⟨2, 3, 4, 1, 1, 1⟩ ⟨1, 2, 3⟩) :=
+  raw_readback realTrig_spec _ rB rB_raw (fun _ _ _ _ _ _ _ h => by cases h)
+example := raw_definition_unique realTrig_spec _ _ rB rfl rB_raw rB_raw (fun _ _ _ _ _ _ _ h => by cases h)
+  (fun _ _ _ _ _ _ _ h => by cases h)
+
+/-- right angles: `Box.orthorhombic(2, 3, 4)`. -/
+example : defineRaw? realTrig (.abc 2 3 4 90 90 90 ⟨1, 2, 3⟩) = some ⟨⟨⟨2, 0, 0⟩, ⟨0, 3, 0⟩, ⟨0, 0, 4⟩⟩, ⟨1, 2, 3⟩⟩ :=
+  define_right_angles realTrig_spec 2 3 4 (by norm_num) (by norm_num) (by norm_num) _
+example : readAs? realTrig .abc ⟨⟨⟨2, 0, 0⟩, ⟨0, 3, 0⟩, ⟨0, 0, 4⟩⟩, ⟨1, 2, 3⟩⟩ = some (.abc 2 3 4 90 90 90 ⟨1, 2, 3⟩) :=
+  real_abc_readback_degrees 2 3 4 90 90 90 _ _ (by norm_num) (by norm_num)
+    (define_right_angles realTrig_spec 2 3 4 (by norm_num) (by norm_num) (by norm_num) _)
+example : readAs? realTrig .abc ⟨⟨⟨2, 0, 0⟩, ⟨0, 3, 0⟩, ⟨0, 0, 4⟩⟩, ⟨1, 2, 3⟩⟩ = some (.abc 2 3 4 90 90 90 ⟨1, 2, 3⟩) :=
+  raw_readback realTrig_spec (.abc 2 3 4 90 90 90 ⟨1, 2, 3⟩) _
+    (define_right_angles realTrig_spec 2 3 4 (by norm_num) (by norm_num) (by norm_num) _)
+    (fun _ _ _ _ _ _ _ h => by injection h with h1 h2 h3; subst h2 h3; norm_num)
+
+private noncomputable def rO : Box ℝ := ⟨⟨⟨2, 0, 0⟩, ⟨0, 3, 0⟩, ⟨0, 0, 4⟩⟩, ⟨0, 0, 0⟩⟩
+private theorem rO_defined : define? realTrig rThr (.abc 2 3 4 90 90 90 ⟨0, 0, 0⟩) = some rO := by
+  rw [define_eq_clean_raw, define_right_angles realTrig_spec 2 3 4 (by norm_num) (by norm_num) (by norm_num), Option.map_some, cleanBox]
+  have : IsClean rThr rO := by
+    refine isClean_of_bound rThr 4 (by norm_num [rThr]) rO ?_ ?_
+    · rw [maxAbs_le_iff]; norm_num [rO]
+    · simp only [List.mem_cons, List.not_mem_nil, or_false, forall_eq_or_imp, forall_eq]; norm_num [rO, rThr]
+  exact congrArg some (Box.ext this rfl)
+/-- a crystal-family constructor: `Box.orthorhombic(2, 3, 4)` read through any parameter set and rebuilt. -/
+example (Y : Family) := ctor_rebuild_any realTrig_spec rThr (by norm_num [rThr]) (.orthorhombic 2 3 4) _ rO Y
+  (by norm_num [Ctor.params?]) rO_defined (by norm_num [rO, M3.det, V3.dot, V3.cross])
+
+example : lenOf realTrig (scaleV (5/2) ⟨1, 3, 0⟩) = 5/2 * lenOf realTrig ⟨1, 3, 0⟩ := lenOf_scale realTrig_spec (5/2) (by norm_num) _
+example : angleDeg realTrig (scaleV (5/2) ⟨1, 3, 0⟩) (scaleV (5/2) ⟨1, 1, 4⟩) = angleDeg realTrig ⟨1, 3, 0⟩ ⟨1, 1, 4⟩ :=
+  angleDeg_scale realTrig_spec (5/2) (by norm_num) _ _ (by norm_num [V3.normSq, V3.dot]) (by norm_num [V3.normSq, V3.dot])
+example := angleDeg_spec realTrig_spec (⟨1, 3, 0⟩ : V3 ℝ) ⟨1, 1, 4⟩ (by norm_num [V3.normSq, V3.dot, V3.cross])
+
+/-- a non-right angle: `gamma = 60` degrees (hexagonal-like cell `a = b = 2`, `c = 3`): the cell `set_abc` builds has
+    `xy = 1`, `ly = √3`, and reading `a b c alpha beta gamma` back returns the six numbers typed in. -/
+private theorem cos60 : realTrig.cos (60 * realTrig.pi / 180) = 1 / 2 := by
+  show Real.cos (60 * Real.pi / 180) = 1 / 2
+  rw [show (60 : ℝ) * Real.pi / 180 = Real.pi / 3 by ring, Real.cos_pi_div_three]
+private theorem cos90 : realTrig.cos (90 * realTrig.pi / 180) = 0 := realTrig_spec.cos_right
+
+example : ∃ bx : Box ℝ, defineRaw? realTrig (.abc 2 2 3 90 90 60 ⟨1, 2, 3⟩) = some bx ∧ bx.vects.r1.x = 1 ∧
+    readAs? realTrig .abc bx = some (.abc 2 2 3 90 90 60 ⟨1, 2, 3⟩) := by
+  have hly : abcLySq (2 : ℝ) (1 / 2) = 3 := by norm_num [abcLySq]
+  have h3 : 0 < Real.sqrt 3 := Real.sqrt_pos.mpr (by norm_num)
+  have hlz : abcLzSq (2 : ℝ) 3 0 0 (1 / 2) (Real.sqrt 3) = 9 := by
+    simp [abcLzSq]; norm_num
+  have h9 : 0 < Real.sqrt 9 := Real.sqrt_pos.mpr (by norm_num)
+  have hraw : defineRaw? realTrig (.abc 2 2 3 90 90 60 ⟨1, 2, 3⟩) =
+      some ⟨⟨⟨2, 0, 0⟩, ⟨1, Real.sqrt 3, 0⟩, ⟨0, 0, Real.sqrt 9⟩⟩, ⟨1, 2, 3⟩⟩ := by
+    have hok : anglesOk (90 : ℝ) 90 60 = true := by simp [anglesOk]; norm_num
+    simp only [defineRaw?, hok, if_true, abcOfDeg, cosDeg, cos60, cos90, hly]
+    show ofLengthsP? (abcLengths 2 2 3 0 0 (1 / 2) (Real.sqrt 3) (Real.sqrt (abcLzSq 2 3 0 0 (1 / 2) (Real.sqrt 3)))) _ = _
+    rw [hlz]
+    simp [ofLengthsP?, Box.ofLengths?, abcLengths, h3, h9]
+  exact ⟨_, hraw, rfl, real_abc_readback_degrees 2 2 3 90 90 60 _ _ (by norm_num) (by norm_num) hraw⟩
+
+end audit_real
+
 end Atomman.C01
